@@ -172,7 +172,17 @@ def eraseAt (w : World N) (j : Nat) (c : C N) (i : Nat) : World N :=
 def copyOf (n : Nat) (c : C N) : C N :=
   { oloc := n, iloc := n + 1, ty := c.ty, objects := c.objects, idx := c.idx }
 
-def applyAct (w : World N) : Act N → World N × Except Err (Out N)
+/-- negative model (seeded change M4): the copy keeps the *same* name-index dictionary -/
+def copyShareIdx (n : Nat) (c : C N) : C N := { copyOf n c with iloc := c.iloc }
+
+/-- negative model (seeded change M5): the copy keeps the *same* object list -/
+def copyShareList (n : Nat) (c : C N) : C N := { copyOf n c with oloc := c.oloc }
+
+/-- negative model: `copy.copy(self)` alone — list and dictionary both shared -/
+def copyShareBoth (n : Nat) (c : C N) : C N := { copyOf n c with oloc := c.oloc, iloc := c.iloc }
+
+/-- the primitive mutations, with the `copy()` used by `+` as a parameter `cp` -/
+def applyActWith (cp : Nat → C N → C N) (w : World N) : Act N → World N × Except Err (Out N)
   | .extend j xs => match w.colls[j]? with
       | none => (w, .error .badTarget)
       | some c => ({ w with colls := extendAt w.colls c xs }, .ok .unit)
@@ -184,8 +194,11 @@ def applyAct (w : World N) : Act N → World N × Except Err (Out N)
   | .copyExtend j xs => match w.colls[j]? with
       | none => (w, .error .badTarget)
       | some c =>
-          let c' := copyOf w.next c
+          let c' := cp w.next c
           ({ next := w.next + 2, colls := extendAt (w.colls ++ [c']) c' xs }, .ok (.coll w.colls.length))
+
+/-- the current code: `copy()` allocates a new list and a new dictionary -/
+def applyAct (w : World N) (a : Act N) : World N × Except Err (Out N) := applyActWith copyOf w a
 
 def view (w : World N) : List (Nat × List (Obj N)) := w.colls.map fun c => (c.ty, c.objects)
 
@@ -195,14 +208,18 @@ def lookupIdx (w : World N) (j : Nat) (n : N) : Option Nat :=
   | some c => odGet c.idx n
 
 /-- one method call on the world (post-state returned also when the call raises) -/
-def step (w : World N) (op : Op N) : World N × Except Err (Out N) :=
+def stepWith (cp : Nat → C N → C N) (w : World N) (op : Op N) : World N × Except Err (Out N) :=
   match plan (view w) (lookupIdx w) op with
   | .error e => (w, .error e)
-  | .ok a => applyAct w a
+  | .ok a => applyActWith cp w a
 
-def run (w : World N) : List (Op N) → World N
+def runWith (cp : Nat → C N → C N) (w : World N) : List (Op N) → World N
   | [] => w
-  | op :: ops => run (step w op).1 ops
+  | op :: ops => runWith cp (stepWith cp w op).1 ops
+
+def step (w : World N) (op : Op N) : World N × Except Err (Out N) := stepWith copyOf w op
+
+def run (w : World N) (ops : List (Op N)) : World N := runWith copyOf w ops
 
 /-- the constructor `NamedObjectCollection(obj_type=ty)` -/
 def newColl (w : World N) (ty : Nat) : World N :=
@@ -286,6 +303,32 @@ def hashKey {H : Type} (h : List (K × V) → H) (d : List (K × V)) : H := h (c
 /-- pinned code: `hash(tuple(d.items()))` — a function of the item *sequence* -/
 def hashKeyOld {H : Type} (h : List (K × V) → H) (d : List (K × V)) : H := h d
 
+/-- a dictionary value as `make_dict_hash` sees it -/
+inductive PyVal
+  | flt (bits : Nat)                      -- float / numpy floating: IEEE-754 bits of `float(v)`
+  | int (i : Int) (exact : Option Nat)    -- bool / int / numpy integer; bits of `float(v)` when `float(v) == v`
+  | other (code : Nat)                    -- any other hashable value (compared with `==`)
+deriving DecidableEq, Repr
+
+def isNaNBits (b : Nat) : Bool := (b / 2 ^ 52) % 2048 == 2047 && b % 2 ^ 52 != 0
+
+/-- `(f + 0.0).hex()`: one representative for the NaNs, `-0.0 + 0.0 = 0.0`, else the exact value -/
+def normBits (b : Nat) : Nat :=
+  if isNaNBits b then 0x7ff8000000000000 else if b = 2 ^ 63 then 0 else b
+
+/-- `_value_repr` of `make_dict_hash`: numbers enter with the exact representation of their float
+value when that is the same number, everything else as it is -/
+def normVal : PyVal → PyVal
+  | .flt b => .flt (normBits b)
+  | .int _ (some b) => .flt (normBits b)
+  | .int i none => .int i none
+  | .other c => .other c
+
+def normItems {K : Type} (d : List (K × PyVal)) : List (K × PyVal) := d.map fun p => (p.1, normVal p.2)
+
+/-- `make_dict_hash(d)` of the current code: `hash(frozenset((k, _value_repr(v)) for …))` -/
+def gridKey {H : Type} (h : List (K × PyVal) → H) (d : List (K × PyVal)) : H := hashKey h (normItems d)
+
 variable {H P : Type} [DecidableEq H]
 
 /-- `PDFSet.add_pdf` on the `_gridparams_hash_pdf_dict` (`none` = KeyError "already added") -/
@@ -297,6 +340,13 @@ def addPdf (h : List (K × V) → H) (s : List (H × P)) (d : List (K × V)) (p 
 /-- `PDFSet.get_pdf` (`none` = KeyError) -/
 def getPdf (h : List (K × V) → H) (s : List (H × P)) (d : List (K × V)) : Option P :=
   odGet s (hashKey h d)
+
+/-- `PDFSet.add_pdf` / `get_pdf` with grid-value dictionaries -/
+def addGridPdf (h : List (K × PyVal) → H) (s : List (H × P)) (d : List (K × PyVal)) (p : P) :
+    Option (List (H × P)) := addPdf h s (normItems d) p
+
+def getGridPdf (h : List (K × PyVal) → H) (s : List (H × P)) (d : List (K × PyVal)) : Option P :=
+  getPdf h s (normItems d)
 
 end hash
 
